@@ -352,25 +352,39 @@ def differing_ids(full, sl):
     return ids
 
 
-def classify(ps, q, full, sl):
-    """stable class of an oracle failure (used as known-finding key):
-         template-slot-in      : a differing policy is a link of a template whose scope has `in ?principal|?resource`
-         static-false-error    : the differing policies differ only in the erroring set and are statically False
+def restrict(ps, ids):
+    pols = [p for p in ps["policies"] if p["id"] in ids]
+    used = {p.get("template") for p in pols}
+    return dict(ps, policies=pols, templates=[t for t in ps["templates"] if t["id"] in used])
+
+
+def classify(harness, ps, q, es, full, sl):
+    """stable class of an oracle failure (used as known-finding key).  The response lists only the DETERMINING
+       policies, so a decision flip changes the reason set of policies that are not at fault: every differing
+       policy is therefore re-run ALONE (its own manifest, same request and store) and counts as a culprit only
+       if it still differs.
+         template-slot-in      : a culprit is a link of a template whose scope has `in ?principal|?resource`
+         static-false-error    : a culprit differs only in the erroring set and is statically False
                                  (PolicyCheck::Irrelevant) for the request's environment
-         other                 : anything else"""
-    ids = differing_ids(full, sl)
+         other                 : any other culprit
+         interaction           : no single policy differs on its own"""
+    ids = sorted(differing_ids(full, sl))
     tpl = {t["id"]: t["text"] for t in ps["templates"]}
+    res = fw.run_rust(harness, [dict(base_cmd(restrict(ps, {i})), cmd="manifest_slice", request=cedar.request_json(q),
+                                     entities=cedar.entities_json(es)) for i in ids])
     classes = set()
-    for p in ps["policies"]:
-        if p["id"] not in ids:
+    for i, rr in zip(ids, res):
+        if "sliced" not in rr or rr["full"] == rr["sliced"]:
             continue
+        p = [x for x in ps["policies"] if x["id"] == i][0]
+        f1, s1 = rr["full"], rr["sliced"]
         if "template" in p and SLOT_IN.search(tpl[p["template"]]):
             classes.add("template-slot-in")
-        elif full["reasons"] == sl["reasons"] and full["decision"] == sl["decision"] and irrelevant_in_env(ps, p["id"], q):
+        elif f1["reasons"] == s1["reasons"] and f1["decision"] == s1["decision"] and irrelevant_in_env(ps, i, q):
             classes.add("static-false-error")
         else:
             classes.add("other")
-    return "+".join(sorted(classes)) or "other"
+    return "+".join(sorted(classes)) or "interaction"
 
 
 def irrelevant_in_env(ps, pid, q):
@@ -392,9 +406,7 @@ def shrink(harness, ps, q, es, full, sl):
         return fw.run_rust(harness, [dict(base_cmd(ps_), cmd="manifest_slice", request=cedar.request_json(q),
                                           entities=cedar.entities_json(e_)) for e_ in ess])
     ids = differing_ids(full, sl)
-    pols = [p for p in ps["policies"] if p["id"] in ids]
-    used = {p.get("template") for p in pols}
-    ps2 = dict(ps, policies=pols, templates=[t for t in ps["templates"] if t["id"] in used])
+    ps2 = restrict(ps, ids)
     rr = run1(ps2, [es])[0]
     if "sliced" not in rr or rr["full"] == rr["sliced"]:
         ps2, rr = ps, run1(ps, [es])[0]
@@ -510,7 +522,7 @@ def run_sets(rep, sets, npairs, r, harness, driver, stats):
         if not oracle_ok:
             stats["oracle_fail"] += 1
             failing_sets.add(id(ps))
-            cls = classify(ps, q, full, sl)
+            cls = classify(harness, ps, q, es, full, sl)
             stats["oracle_fail_classes"][cls] = stats["oracle_fail_classes"].get(cls, 0) + 1
             size = (len(ps["policies"]), len(es))
             if cls not in oracle_failures or size < oracle_failures[cls][0]:
